@@ -223,9 +223,85 @@ def arrays_and_integer_coefficients(ck):
                             expected=[str(e_) for e_ in exp], observed=repr(got), driver='arrays')
 
 
+def exact_ref(z, t):
+    """point and first derivative of the Bezier curve with control points z at t, by de Casteljau in complex arithmetic (independent of the library)"""
+    pts = [complex(w) for w in z]
+    d = [len(z) - 1 and (len(z) - 1) * (b_ - a_) for a_, b_ in zip(pts, pts[1:])] or [0j]
+    def dc(q):
+        q = list(q)
+        while len(q) > 1:
+            q = [(1 - t) * a_ + t * b_ for a_, b_ in zip(q, q[1:])]
+        return q[0]
+    return dc(pts), dc(d)
+
+
+def derived_objects_and_equal_hashes(ck):
+    """(a) objects *derived* from a fully queried segment (reversed, translated, rotated, scaled, cropped, split) are the Bernstein curves of their own control
+    points for point / derivative / poly / points; (b) a control point reassigned to a value with the same hash (hash(-1) == hash(-2) in CPython, so -1+2j / -2+2j,
+    4-1j / 4-2j collide) after every method was called once"""
+    ts = [0.0, 0.25, 0.6, 1.0]
+
+    def judge(tag, obj, how):
+        z = list(obj.bpoints())
+        try:
+            for t in ts:
+                ep, ed = exact_ref(z, t)
+                mag = max(abs(w) for w in z) + 1.0
+                got = (obj.point(t), obj.derivative(t), obj.poly()(t), obj.poly().deriv()(t), complex(obj.points([t])[0]))
+                exp = (ep, ed, ep, ed, ep)
+                if any(not (abs(complex(g_) - e_) <= 1e-10 * mag) for g_, e_ in zip(got, exp)):
+                    ck.disagree(key='%s/%s' % (type(obj).__name__, tag), site='svgpathtools/path.py:%s' % type(obj).__name__,
+                                what='%s: %r at t=%r: point, derivative, poly, poly.deriv, points = %r; the Bernstein curve of its control points gives %r' % (how, obj, t, got, exp),
+                                case={'how': how, 'z': [str(w) for w in z], 't': t}, expected=repr(exp), observed=repr(got), driver='derived')
+                    return
+        except Exception as e:      # noqa
+            ck.disagree(key='%s/%s/raises' % (type(obj).__name__, tag), site='svgpathtools/path.py:%s' % type(obj).__name__, what='%s: %r raised %r' % (how, obj, e),
+                        case={'how': how}, expected='values', observed=repr(e), driver='derived')
+
+    def warm(seg):
+        for f in (seg.length, seg.poly, lambda: seg.points([0.25, 0.5]), lambda: seg.point(0.5), lambda: seg.derivative(0.5), seg.bbox, lambda: seg.unit_tangent(0.5), lambda: hash(seg)):
+            try:
+                f()
+            except Exception:      # noqa
+                pass
+    shapes = [[1 + 1j, 4 + 5j], [0j, 2 + 3j, 5 + 0j], [1 - 2j, 4 + 4j, -3 + 1j], [0j, 1 + 3j, 4 + 3j, 5 + 0j], [2 + 2j, 3 + 5j, 5 - 1j, -4 + 3j], [-1 + 2j, 4 - 1j, 3 + 3j, 0j]]
+    for z in shapes:
+        for warmed in (True, False):
+            seg = make(z)
+            if warmed:
+                warm(seg)
+            derived = [('reversed', seg.reversed()), ('translated', seg.translated(2 - 1j)), ('rotated', seg.rotated(30, origin=0j)), ('scaled', seg.scaled(2)),
+                       ('cropped', seg.cropped(0.25, 0.75)), ('split[0]', seg.split(0.4)[0]), ('split[1]', seg.split(0.4)[1]), ('reversed twice', seg.reversed().reversed())]
+            for nm, ob in derived:
+                ck.case(fp=('derived', str(z), nm, warmed), nontrivial=True)
+                judge('derived-object', ob, '%s of a %s segment' % (nm, 'fully queried' if warmed else 'new'))
+            # in a path: Path.reversed / the path-level derivative
+            pth = sp.Path(make(z), sp.Line(z[-1], z[-1] + 3))
+            if warmed:
+                pth.length()
+                warm(pth[0])
+            ck.case(fp=('derived-path', str(z), warmed), nontrivial=True)
+            judge('derived-object', pth.reversed()[1], 'Path.reversed() member of a %s path' % ('measured' if warmed else 'new'))
+    # equal hashes
+    names = {2: ('start', 'end'), 3: ('start', 'control', 'end'), 4: ('start', 'control1', 'control2', 'end')}
+    for z in shapes:
+        for idx in range(len(z)):
+            for a_, b_ in ((-1 + 2j, -2 + 2j), (-2 + 2j, -1 + 2j), (4 - 1j, 4 - 2j), (-1 - 1j, -2 - 2j), (-1 + 0j, -2 + 0j)):
+                z0 = list(z)
+                z0[idx] = a_
+                if len(set(z0)) < 2:
+                    continue
+                seg = make(z0)
+                warm(seg)
+                setattr(seg, names[len(z)][idx], b_)
+                ck.case(fp=('equal-hash', str(z), idx, str(a_)), nontrivial=True)
+                judge('control-point-reassigned-to-a-value-with-the-same-hash', seg, 'control point %d moved from %r to %r after every method was called' % (idx, a_, b_))
+
+
 def run(ck):
     rnd = random.Random(ck.seed)
     quick = ck.tier == 'quick'
+    derived_objects_and_equal_hashes(ck)
     off = straight_line_check()
     ck.parts['branching_assumption_offenders'] = off
     ck.rules.append('case = (two 1-D control vectors of Bezier.tla paired into complex control points, t = a/D, scale); exact == for D = 8 and '
